@@ -510,6 +510,7 @@ def pattern_label(context, tree):
 def pattern_jmp(context, tree):
     tgt = tree.value
     context.emit(J(tgt.name, jumps=[tgt]))
+    context.emit(Nop())  # Delay slot
 
 
 @isa.pattern("stm", "CJMPI32(reg, reg)")
